@@ -107,7 +107,11 @@ func householderTridiagonalization(inSitu *InSitu, epsilon float64) (Matrix, Mat
       s.Add(s, t)
     }
     s.Sqrt(s)
-
+    if beta.GetFloat64() == 0.0 && A.At(k+1,k).GetFloat64() < 0.0 {
+      // the column is already reduced and no reflection is applied:
+      // keep the sign of the sub-diagonal element
+      s.Neg(s)
+    }
     A.At(k+1,k+0).Set(s)
     A.At(k+0,k+1).Set(s)
 
